@@ -84,4 +84,53 @@ theorem bits_sound_of_running {s : St} (h : WSound s) (l : Life s)
   rw [bitsSound_iff]
   exact h.bits_of_files (l.files_of_running hs).2.1
 
+/-! ### initial states -/
+
+/-- What the driver's `initSt` establishes (Driver/Suites/Loop.lean): a freshly added, stopped torrent
+without bitfield; `bad` is whatever the disk looks like, as long as it only names real data sections. -/
+structure InitLike (s : St) : Prop where
+  cfg : CfgWF s.cfg
+  bad : BadWF s
+  bf : s.bf = none
+  persisted : s.persisted = none
+  errC : s.errC = false
+  stopAnn : s.stopAnn = false
+  allocator : s.allocator = false
+  verifier : s.verifier = false
+  loaded : s.loaded = false
+  acceptor : s.acceptor = false
+  openFiles : s.openFiles = []
+  peers : s.peers = []
+  dls : s.dls = []
+  idls : s.idls = []
+  leaked : s.leaked = 0
+  completed : s.completed = false
+  completeCClosed : s.completeCClosed = false
+
+theorem InitLike.sound {s : St} (h : InitLike s) : Sound s :=
+  ⟨h.cfg, h.bad, fun i hi => (by rw [h.bf] at hi; cases hi), fun i hi => (by rw [h.persisted] at hi; cases hi)⟩
+
+theorem InitLike.wsound {s : St} (h : InitLike s) : WSound s :=
+  ⟨h.cfg, h.bad, fun i hi => (by rw [h.bf] at hi; cases hi)⟩
+
+theorem InitLike.life {s : St} (h : InitLike s) : Life s := by
+  refine ⟨?_, ?_, h.leaked, ?_, ?_, ?_, ?_⟩
+  · rw [h.stopAnn]; intro hh; cases hh
+  · intro _; exact ⟨h.allocator, h.verifier, h.loaded, h.acceptor, h.openFiles, h.peers, h.dls, h.idls⟩
+  · rw [h.loaded]; intro hh; cases hh
+  · rw [h.errC]; intro hh; cases hh
+  · intro _; exact ⟨h.allocator, h.verifier, h.loaded, h.completed, h.bf⟩
+  · rw [h.verifier]; intro hh; cases hh
+
+theorem InitLike.comp {s : St} (h : InitLike s) : CompInv s := by
+  refine ⟨by rw [h.completeCClosed, h.completed], ?_, ?_⟩
+  · rw [h.completed]; intro hh; cases hh
+  · rw [h.errC]; intro hh; cases hh
+
+/-- `bad := c.dataSects` (nothing on disk yet), as `initSt` sets it, is well-formed. -/
+theorem badWF_dataSects (s : St) (h : s.bad = s.cfg.dataSects) : BadWF s := by
+  intro x hx
+  rw [h] at hx
+  exact mem_dataSects _ _ hx
+
 end Rain.Loop
